@@ -12,6 +12,7 @@ import QEProofs.Lemmas.C16Nearest
 import QEProofs.Lemmas.C16NearestIdx
 import QEProofs.Lemmas.C16Prod
 import QEProofs.Lemmas.C16ProdSet
+import QEProofs.Lemmas.C16Linspace
 import QEProofs.Lemmas.C16Simplex
 import QEProofs.Lemmas.C16SimplexIdx
 namespace QE.C16
@@ -501,8 +502,9 @@ example : cartesian [[1, 2], [10, 20, 30]] true
     recursive cartesian product `cartProd nodes` (first factor slowest — exactly what
     `itertools.product(*nodes)` enumerates: every element of the product once, in that order).
     Order F: it equals the product of the reversed grid list with every row reversed (first
-    factor fastest). No hypotheses: empty `nodes` gives the single empty row, an empty grid
-    gives no rows. -/
+    factor fastest). No hypotheses on the kernel `cartesian` (empty `nodes`: the single empty
+    row; an empty grid: no rows) — but AS CALLED the code raises in exactly those two cases, see
+    `cartesianApi_spec`. -/
 theorem cartesian_eq_product {α : Type} [Zero α] (nodes : List (List α)) :
     cartesian nodes false = cartProd nodes ∧
     cartesian nodes true = (cartProd nodes.reverse).map List.reverse :=
@@ -590,6 +592,90 @@ example : ((cartesian ([[1, 2], [10, 20, 30]] : List (List Int)) false).getD
 theorem cartesianIndex_formula (inds nums : List Nat) (hlen : inds.length = nums.length) :
     cartesianIndex inds nums = ciVal inds nums := cartesianIndex_eq_ciVal inds nums hlen
 
+/-! ## cartesian / mlinspace as called: argument handling and error branches
+    (proofs: `Lemmas/C16Linspace`). The models `cartesianApi`, `linspace`, `mlGrids`,
+    `mlinspaceApi` are executed by the driver ops `cartapi`, `linspace`, `mlinspace` (the last two
+    at `Float`, compared bit for bit with NumPy / `mlinspace`). -/
+
+/-- **`cartesian(nodes, order)` as called.** It returns normally iff there is at least one grid
+    and no grid is empty, and then the result is the product list (order `'C'`: `cartProd nodes`;
+    ANY other `order` string: the F enumeration). With no grids it raises `ValueError`
+    (`np.result_type()` of nothing); with an empty grid it raises `ZeroDivisionError`
+    (`_repeat_1d` divides by `K·N = 0`) — the code does not return the empty product. -/
+theorem cartesianApi_spec {α : Type} [Zero α] (nodes : List (List α)) (order : String) :
+    (∀ rows, cartesianApi nodes order = .ok rows ↔
+      nodes ≠ [] ∧ (∀ g ∈ nodes, g ≠ []) ∧
+      rows = if order = "C" then cartProd nodes else (cartProd nodes.reverse).map List.reverse) ∧
+    (cartesianApi nodes order = .error "ValueError" ↔ nodes = []) ∧
+    (cartesianApi nodes order = .error "ZeroDivisionError" ↔ nodes ≠ [] ∧ ∃ g ∈ nodes, g = []) := by
+  refine ⟨fun rows => ?_, cartesianApi_error_iff nodes order⟩
+  rw [cartesianApi_ok_iff]
+  by_cases h : order = "C"
+  · simp only [h, ne_eq, not_true_eq_false, decide_false, if_true, cartesian_C_eq_cartProd]
+  · simp only [h, ne_eq, not_false_eq_true, decide_true, if_false, cartesian_F_eq_cartProd]
+
+example : cartesianApi ([[1, 2], [10, 20, 30]] : List (List Int)) "C"
+    = .ok [[1, 10], [1, 20], [1, 30], [2, 10], [2, 20], [2, 30]] := by decide
+example : cartesianApi ([[1, 2], []] : List (List Int)) "F" = .error "ZeroDivisionError" ∧
+    cartesianApi ([] : List (List Int)) "C" = .error "ValueError" := by decide
+
+section
+variable {K : Type} [Field K] [LinearOrder K] [IsStrictOrderedRing K]
+
+/-- **`np.linspace(start, stop, num)` in exact arithmetic**: `num` nodes; for `num ≥ 2` node `i`
+    is `start + i·(stop−start)/(num−1)` — in particular the first is `start` and the last is
+    `stop` — for either branch of NumPy's `step == 0` test; `num = 1` gives `[start]`. -/
+theorem linspace_spec (start stop : K) (num : Nat) :
+    (linspace (fun n : Nat => (n : K)) start stop num).length = num ∧
+    (2 ≤ num → ∀ i, i < num →
+      (linspace (fun n : Nat => (n : K)) start stop num).getD i 0
+        = start + (i : K) * (stop - start) / ((num : K) - 1)) ∧
+    (2 ≤ num → (linspace (fun n : Nat => (n : K)) start stop num).getD 0 0 = start ∧
+      (linspace (fun n : Nat => (n : K)) start stop num).getD (num - 1) 0 = stop) ∧
+    (num = 1 → linspace (fun n : Nat => (n : K)) start stop num = [start]) := by
+  refine ⟨linspace_length start stop num, fun hn i hi => linspace_getD start stop num i hn hi,
+    fun hn => ⟨?_, ?_⟩, fun h => by rw [h]; exact linspace_one start stop⟩
+  · rw [linspace_getD start stop num 0 hn (by omega)]; simp
+  · rw [linspace_getD start stop num (num - 1) hn (by omega)]
+    have hne : ((num : K) - 1) ≠ 0 := by
+      have : (2 : K) ≤ (num : K) := by exact_mod_cast hn
+      intro h; linarith
+    rw [Nat.cast_sub (by omega)]; simp only [Nat.cast_one]; field_simp; ring
+
+/-- a non-degenerate increasing interval gives a strictly increasing grid (so the grids of
+    `mlinspace` are valid sorted, duplicate-free grids for `cartesian_nearest_index`) -/
+theorem linspace_strictly_increasing (start stop : K) (num : Nat) (h : start < stop) :
+    (linspace (fun n : Nat => (n : K)) start stop num).Pairwise (· < ·) :=
+  linspace_strictMono start stop num h
+
+/-- **`mlinspace(a, b, nums, order)` as called.** It returns normally iff `nums` is non-empty,
+    `a` and `b` have at least `len(nums)` entries and every count is `≥ 1`; the result is then the
+    product grid (`cartProd`, resp. its F enumeration for any `order ≠ 'C'`) of the
+    per-dimension `linspace(a[i], b[i], nums[i])` grids. (Otherwise the first failing index of
+    the comprehension decides: `IndexError`, `ValueError` for a negative count; then
+    `ValueError` for no dimension and `ZeroDivisionError` for a zero count — `mlGrids_ok_iff`,
+    `cartesianApi_spec`.) -/
+theorem mlinspaceApi_spec (a b : List K) (nums : List Int) (order : String)
+    (rows : List (List K)) :
+    mlinspaceApi (fun n : Nat => (n : K)) a b nums order = .ok rows ↔
+      nums ≠ [] ∧ nums.length ≤ a.length ∧ nums.length ≤ b.length ∧ (∀ n ∈ nums, 1 ≤ n) ∧
+      rows = if order = "C" then cartProd (mlGridsOf a b nums 0)
+             else (cartProd (mlGridsOf a b nums 0).reverse).map List.reverse := by
+  rw [mlinspaceApi_ok_iff]
+  by_cases h : order = "C"
+  · simp only [h, ne_eq, not_true_eq_false, decide_false, if_true, cartesian_C_eq_cartProd]
+  · simp only [h, ne_eq, not_false_eq_true, decide_true, if_false, cartesian_F_eq_cartProd]
+
+end
+
+example : mlinspaceApi (fun n : Nat => (n : Rat)) [0, 0] [1, 1] [2, 3] "C"
+    = .ok [[0, 0], [0, 1/2], [0, 1], [1, 0], [1, 1/2], [1, 1]] := by decide +kernel
+example : mlinspaceApi (fun n : Nat => (n : Rat)) [0, 0] [1, 1] [2, -1] "C" = .error "ValueError" ∧
+    mlinspaceApi (fun n : Nat => (n : Rat)) [0] [1, 1] [2, 3] "C" = .error "IndexError" ∧
+    mlinspaceApi (fun n : Nat => (n : Rat)) [0, 0] [1, 1] [2, 0] "C" = .error "ZeroDivisionError" ∧
+    mlinspaceApi (fun n : Nat => (n : Rat)) [] [] [] "F" = .error "ValueError" := by decide +kernel
+example : linspace (fun n : Nat => (n : Rat)) 1 3 5 = [1, 3/2, 2, 5/2, 3] := by decide +kernel
+
 /-! ## cartesian_nearest_index  (proofs: `Lemmas/C16Nearest`, `Lemmas/C16NearestIdx`) -/
 
 section
@@ -650,6 +736,92 @@ theorem nearestIndex_is_argmin (nodes : List (List K)) (x : List K) (o : Bool)
       sqDist nodes.length x ((cartesian nodes o).getD (nearestIndex nodes x o) [])
         ≤ sqDist nodes.length x ((cartesian nodes o).getD r' []) :=
   nearestIndex_argmin nodes x o hn
+
+/-- **`cartesian_nearest_index(x, nodes, order)` as called** (batch `X` of points of length `n`):
+    it returns normally iff there is at least one grid, no grid is empty and `len(nodes) = n`,
+    and then answers point by point with `nearestIndex` (F enumeration only for `order == 'F'`);
+    an empty grid raises `IndexError` (from `type(e[0])`, before anything else), otherwise no
+    grids or a length mismatch raise `ValueError`. -/
+theorem nearestIndexApi_spec (X : List (List K)) (n : Nat) (nodes : List (List K))
+    (order : String) :
+    (∀ idx, nearestIndexApi X n nodes order = .ok idx ↔
+      nodes ≠ [] ∧ (∀ g ∈ nodes, g ≠ []) ∧ nodes.length = n ∧
+      idx = X.map fun x => nearestIndex nodes x (order == "F")) ∧
+    (nearestIndexApi X n nodes order = .error "IndexError" ↔ ∃ g ∈ nodes, g = []) ∧
+    (nearestIndexApi X n nodes order = .error "ValueError" ↔
+      (∀ g ∈ nodes, g ≠ []) ∧ (nodes = [] ∨ nodes.length ≠ n)) := by
+  unfold nearestIndexApi
+  by_cases h1 : nodes.any List.isEmpty = true
+  · obtain ⟨g, hg, he⟩ := List.any_eq_true.mp h1
+    have hge := List.isEmpty_iff.mp he
+    rw [if_pos h1]
+    refine ⟨fun idx => ⟨fun h => (by cases h), fun h => absurd hge (h.2.1 g hg)⟩,
+      ⟨fun _ => ⟨g, hg, hge⟩, fun _ => rfl⟩, ⟨fun h => ?_, fun h => absurd hge (h.1 g hg)⟩⟩
+    injection h with h; exact absurd h (by decide)
+  rw [if_neg h1]
+  have hall : ∀ g ∈ nodes, g ≠ [] := fun g hg he =>
+    h1 (List.any_eq_true.mpr ⟨g, hg, List.isEmpty_iff.mpr he⟩)
+  have hnoidx : ¬ ∃ g ∈ nodes, g = [] := fun ⟨g, hg, he⟩ => hall g hg he
+  by_cases h2 : nodes.isEmpty = true
+  · have hn := List.isEmpty_iff.mp h2
+    rw [if_pos h2]
+    refine ⟨fun idx => ⟨fun h => (by cases h), fun h => absurd hn h.1⟩,
+      ⟨fun h => ?_, fun h => absurd h hnoidx⟩, ⟨fun _ => ⟨hall, Or.inl hn⟩, fun _ => rfl⟩⟩
+    injection h with h; exact absurd h (by decide)
+  rw [if_neg h2]
+  have hne : nodes ≠ [] := fun h => h2 (List.isEmpty_iff.mpr h)
+  by_cases h3 : nodes.length ≠ n
+  · rw [if_pos h3]
+    refine ⟨fun idx => ⟨fun h => (by cases h), fun h => absurd h.2.2.1 h3⟩,
+      ⟨fun h => ?_, fun h => absurd h hnoidx⟩, ⟨fun _ => ⟨hall, Or.inr h3⟩, fun _ => rfl⟩⟩
+    injection h with h; exact absurd h (by decide)
+  · rw [if_neg h3]
+    have h3' : nodes.length = n := not_not.mp h3
+    refine ⟨fun idx => ⟨fun h => ?_, fun h => by rw [h.2.2.2]⟩,
+      ⟨fun h => (by cases h), fun h => absurd h hnoidx⟩, ⟨fun h => (by cases h), ?_⟩⟩
+    · injection h with h; exact ⟨hne, hall, h3', h.symm⟩
+    · rintro ⟨_, h | h⟩
+      · exact absurd h hne
+      · exact absurd h3' h
+
+/-- **End to end, for the documented orders**: with `order ∈ {'C','F'}`, at least one grid, all
+    grids non-empty and sorted and points of length `len(nodes)`, both entry points return
+    normally, and every returned index is a row number of `cartesian(nodes, order)` — the same
+    enumeration — whose row is at minimum Euclidean distance from the corresponding point.
+    (For any other `order` string `cartesian` enumerates in F order while
+    `cartesian_nearest_index` computes the C index — `cartesianApi_spec`,
+    `nearestIndexApi_spec` — so the two no longer refer to the same enumeration.) -/
+theorem nearestIndexApi_argmin (X : List (List K)) (nodes : List (List K)) (order : String)
+    (ho : order = "C" ∨ order = "F") (hne : nodes ≠ [])
+    (hn : ∀ g ∈ nodes, g ≠ [] ∧ g.Pairwise (· ≤ ·)) :
+    ∃ idx rows, nearestIndexApi X nodes.length nodes order = .ok idx ∧
+      cartesianApi nodes order = .ok rows ∧ idx.length = X.length ∧
+      ∀ t (ht : t < X.length), idx.getD t 0 < rows.length ∧
+        ∀ r', r' < rows.length →
+          sqDist nodes.length (X[t]) (rows.getD (idx.getD t 0) [])
+            ≤ sqDist nodes.length (X[t]) (rows.getD r' []) := by
+  have hb : (order == "F") = decide (order ≠ "C") := by
+    rcases ho with rfl | rfl <;> decide
+  refine ⟨X.map fun x => nearestIndex nodes x (order == "F"),
+    cartesian nodes (decide (order ≠ "C")), ?_, ?_, by simp, ?_⟩
+  · exact ((nearestIndexApi_spec X nodes.length nodes order).1 _).mpr
+      ⟨hne, fun g hg => (hn g hg).1, rfl, rfl⟩
+  · exact (cartesianApi_ok_iff nodes order _).mpr ⟨hne, fun g hg => (hn g hg).1, rfl⟩
+  · intro t ht
+    have hget : (X.map fun x => nearestIndex nodes x (order == "F")).getD t 0
+        = nearestIndex nodes X[t] (decide (order ≠ "C")) := by
+      rw [List.getD_eq_getElem?_getD, List.getElem?_map, List.getElem?_eq_getElem ht, hb]; rfl
+    rw [hget]
+    have := nearestIndex_argmin nodes X[t] (decide (order ≠ "C")) hn
+    exact ⟨this.1, this.2.2⟩
+
+example : nearestIndexApi ([[2, 16], [0, 0]] : List (List Rat)) 2 [[0, 1, 3], [10, 20]] "F"
+      = .ok [4, 0] ∧
+    nearestIndexApi ([[2, 16]] : List (List Rat)) 2 [[0, 1], []] "C" = .error "IndexError" ∧
+    nearestIndexApi ([[2, 16, 1]] : List (List Rat)) 3 [[0, 1, 3], [10, 20]] "C"
+      = .error "ValueError" := by decide +kernel
+example : ∀ g ∈ ([[0, 1, 3], [10, 20]] : List (List Rat)), g ≠ [] ∧ g.Pairwise (· ≤ ·) := by
+  decide +kernel
 
 end
 
